@@ -38,6 +38,7 @@ CFG = {
         "Swat4.C16.addServer_backed_strict",
         "Swat4.C16.probe_backed_strict",
         "Swat4.C16.probe_complete_backed_strict",
+        "Swat4.C16.probeRetry_backed_strict",
         "Swat4.C16.refresh_revive_backed_strict",
         "Swat4.C16.renew_remove_backed_strict",
         "Swat4.C16.C16_interleaved_strict",
@@ -51,7 +52,6 @@ CFG = {
         "Swat4.C16.mark_preserved_probeRetry",
         "Swat4.C16.pop_strict_held",
         "Swat4.C16.pop_complete_backed",
-        "Swat4.C16.runner_is_model",
         "Swat4.C16.runner_complete_backed",
         # progress surrogate: every chain of retries for one mark ends (prober batches alone, explicit scheduling hypotheses)
         "Swat4.C16.probe_progress",
@@ -60,6 +60,14 @@ CFG = {
         "Swat4.C16.Progress.popMany_fit",
         "Swat4.C16.facts_item_id_uses",
     ],
+    # proved in the Lean files (and built with the module) but NOT audited as property theorems: each is a read-back of a
+    # definition, glue between two names, true by type, or a restatement of an audited theorem
+    "supporting": [
+        {"name": "Swat4.C16.runner_is_model", "why": "`rfl`: the program the driver runs for a pop client is `UC.proberRun` by definition of `USpec.prog`; the content is runner_complete_backed / pop_complete_backed"},
+        {"name": "Swat4.C16.discover_order", "why": "shape lemma, definitional (`UC.maybeDiscoverPort` unfolded: enqueue before mark); the property statements are report_backed(_strict)"},
+        {"name": "Swat4.C16.submission_order", "why": "shape lemma, definitional (`UC.discoverServer` unfolded); the property statements are addServer_backed(_strict)"},
+        {"name": "Swat4.C16.retry_order", "why": "shape lemma, definitional (`UC.probeRetry` unfolded under retries < max); the property statements are probeRetry_backed(_strict)"},
+    ],
     "shards": (1, 16),
     "nontrivial": _nontrivial,
     "rule": "nine scenarios (first report, re-report, REST submission of an unknown / known server, prober pop with retry / success / final "
@@ -67,7 +75,7 @@ CFG = {
             "call x {client death, storage fault} x {before, after the command took effect} — exhaustive in the thorough tier —, each followed by "
             "lease expiry and quiescence; the same followed by a later report / prober run / keepalive of another component; and a prober "
             "resolving a fresh probe between another client's enqueue and mark; compared with the call-granularity model (USys) through the "
-            "harness' effective events; oracle: Backed on the final keyspace (every port_retry / details_retry mark has a queued probe of "
+            "harness' effective events; oracle: BackedStrict on the final keyspace (every port_retry / details_retry mark has a queued NON-EXPIRING probe of "
             "that goal), failures classified by signature PER ORPHAN, tied to its own address and goal (holder-loss, consumed-before-mark: known findings; "
             "any other orphan, or any orphan of a history the model does not reproduce: violation)",
     "assumptions": [
@@ -76,8 +84,9 @@ CFG = {
         "the prober runner is modelled as: PopMany, then one probeserver execution per popped probe, sequentially (worker concurrency is C12/C13's concern)",
     ],
     "trusted_base": COMMON_TRUSTED + [
-        "driver-implemented semantics in lean/Swat4/Drv/C16.lean (not Model/ or Spec/ definitions): the oracle `orphans` (svStatuses / queued: a "
-        "port_retry or details_retry bit of an SV dump line without a PI line of that address and goal), and the attribution of an orphan to a known "
+        "driver-implemented semantics in lean/Swat4/Drv/C16.lean (not Model/ or Spec/ definitions): the text oracle `orphans` (svStatuses / queued: a "
+        "port_retry or details_retry bit of an SV dump line without a NON-EXPIRING PI line — expiry column z — of that address and goal), cross-checked on every case "
+        "against the proved `Strict.backedStrictB` on the parsed dump (`strictB`; trusted there: parseDump and RStore.abs), and the attribution of an orphan to a known "
         "finding: `history` (the model USys.stepT replaying the implementation's effective events, recording per event who acted and which queue items "
         "vanished / appeared), `heldAndLost` (a pop client took a probe of exactly the orphan's address and goal and ended crashed / with a PopMany error / "
         "with an error outcome at that probe's position of the batch) and `consumedBeforeMark` (a probe of exactly the orphan's address and goal was "
@@ -100,14 +109,19 @@ CFG = {
                 "(usecases_filter_sets): a details_retry row fails refresh's filter, a port_retry row fails revival's for every scope window, addserver's and "
                 "reportserver's discovery branches return without a repository call for a marked record; addServer_marked_noop — re-submission of a marked server "
                 "changes nothing at any crash/fault point; the shape lemmas discover_order / submission_order / retry_order are definitional and no longer audited). The correspondence run validates the model on the real code: every crash and fault placement at every storage command "
-                "of every mark-setting or mark-consuming use case, Backed oracle (backedB, proved correct: backedB_correct) on the final keyspace. "
+                "of every mark-setting or mark-consuming use case; the oracle on the final keyspace is BackedStrict, evaluated twice and required to agree: "
+                "Strict.backedStrictB (proved correct: Strict.backedStrictB_iff) on the dump parsed back into a store (Drv/StoreRun.parseDump, RStore.abs), and the driver's "
+                "text function `orphans` (Drv/C16.lean: a port_retry / details_retry bit of an SV line without a PI line of that address and goal whose expiry column is z), "
+                "which names the orphans for the per-orphan classification; a hung or panicked case carries sig=not-terminated / sig=panic and is never excused by a known finding. "
                 "BackedStrict (the backing probe must have no expiry: refresh/revival probes expire and PopMany drops them silently — expiring_backing_orphaned): "
-                "every *_backed theorem and C16_interleaved re-proved as *_backed_strict / C16_interleaved_strict (mark-setting paths enqueue with no expiry); "
+                "every *_backed theorem (probeRetry_backed_strict included) and C16_interleaved re-proved as *_backed_strict / C16_interleaved_strict (mark-setting paths enqueue with no expiry); "
+                "probe_progress — the progress surrogate: under explicit scheduling hypotheses (Progress.FairRun: prober batches alone, each popping everything ready) every chain of retries "
+                "for one mark ends — after at most the mark's potential many batches the mark is resolved (cleared by success / final failure) — so a backed mark does not stay pending forever; "
                 "C16_interleaved now covers the two-step cleaner (Client.cleanServers2); mark_preserved_* — report, keepalive, removal, REST submission, refresh, "
                 "revival, both cleaners and the prober's retry never clear a retry bit of a row that stays, at every crash/fault point (only HandleSuccess/HandleFailure do); "
                 "pop_strict_held — after PopMany from a BackedStrict store every mark is backed by a queued non-expiring probe or by a probe the call returned; "
                 "pop_complete_backed — a fault-free prober batch (UC.proberRunWith of Model/UseCases/ProberRun.lean: PopMany n, then probeserver for every popped probe to completion, any order, any outcomes) "
-                "ends BackedStrict again; runner_is_model — the program the driver runs for a pop client IS the Model's UC.proberRun (definitional; the driver only renders its report), "
+                "ends BackedStrict again; runner_is_model [supporting, `rfl`, not audited] — the program the driver runs for a pop client IS the Model's UC.proberRun (definitional; the driver only renders its report), "
                 "runner_complete_backed — hence pop_complete_backed holds of the driver's pop client itself (UC.sortBatch is a reordering). "
                 "stale_readd_unbacked: a further race in the model (no crash, no fault; needs a popper and a removal between a reporter's lookup and "
                 "its Add, which stores the stale marked copy) — outside the harness' scenarios, reported. "
